@@ -609,6 +609,14 @@ def step_rename_columns(g: G, sch: Sch):
 
 
 def step_map_columns(g: G, sch: Sch):
+    if "map_onto_deleted" not in g.closed and g.boolean(0.25):
+        # rename y -> x while deleting the old x in the same step (legal: the builder only forbids collisions with
+        # columns that survive)
+        for t in g.draw(st.permutations(["int", "float", "str", "bool"])):
+            same = [c for c in sch.names() if sch.cols[c]["type"] == t]
+            if len(same) >= 2 and len(sch.names()) >= 3:
+                y, x = g.subset(same, lo=2, hi=2)
+                return {"op": "map_columns", "mapping": [[y, x], [x, None]] if g.boolean() else [[x, None], [y, x]]}
     pairs = _rename_pairs(g, sch)
     mapping = [[old, new] for old, new in pairs]
     used = {old for old, _ in pairs} | {new for _, new in pairs}
@@ -686,7 +694,12 @@ def step_join(g: G, schemas: Dict[int, Sch], a: int, b: int):
             cb = [c for c in sb.names() if keyable(sb, c)]
             pairs = [(x, y) for x in ca for y in cb if x != y and sa.cols[x]["type"] == sb.cols[y]["type"] and x not in [p[0] for p in on] and y not in [p[1] for p in on]]
             # a differently named key pair keeps both columns; avoid pairs whose names collide with the other side
-            pairs = [(x, y) for x, y in pairs if x not in sb.cols and y not in sa.cols]
+            if "diffname_key_shadow" in closed or not g.boolean(0.3):
+                # usually keep both key names distinct from the other side's columns; sometimes let the left key name
+                # also be a NON-key column of the right side (it then is a shared column: COALESCE(left, right))
+                pairs = [(x, y) for x, y in pairs if x not in sb.cols and y not in sa.cols]
+            else:
+                pairs = [(x, y) for x, y in pairs if (x in sb.cols) != (y in sa.cols) or (x not in sb.cols and y not in sa.cols)]
             if pairs:
                 x, y = g.pick(pairs)
                 on = on + [[x, y]] if g.boolean(0.5) else [[x, y]]
